@@ -460,6 +460,22 @@ def run(ctx):
             msg = "%s %s (%s) and is reachable from the fix of %s: comments may be deleted only by the two documented comment-removing fixes" % (fi.key, what, label, "; ".join(fam_label(f) for f in bad[:3]))
         r.fail("C02.drop", kk, msg, fi.loc(n))
     r.extra["comment_loss_sites"] = len(seen)
+    # what this clause does not decide: index-computed deletions and rebuilt lists (listed, never alarmed)
+    n_unk = 0
+    done = set()
+    for fam in sorted(fams):
+        prov = p.functions[fam[0]]
+        if prov.key in done:
+            continue
+        done.add(prov.key)
+        for x in fx.effects_of(prov):
+            if x.kind == "STRUCT" and re.search(r"pop|del |remove|rebuilt|\[a:b\]|clear", x.detail):
+                uk = "%s:%s" % (x.fi.key, x.detail)
+                if uk in seen or any(uk.startswith(k.split(":set_tokens")[0]) and "set_tokens" in k and "set_tokens" in uk for k in seen):
+                    continue
+                n_unk += 1
+                r.unknown("C02.drop", uk, "index-computed deletion / rebuilt list: which tokens it removes is a run-time selection")
+    r.extra["undecided_structural_edits"] = n_unk
     if len(seen) < 12:
         raise AnalysisError("only %d comment-loss candidate sites enumerated" % len(seen))
 
